@@ -152,7 +152,7 @@ def encoder_table(ctx, facts_list):
             problems.append('no encoder arm for %s' % vname)
             continue
         tgt, reg = regions[idx]
-        rds = ret_defs(tb, reg)
+        rds = arm_ret_values(b, tb, sb, idx)
         if len(rds) != 1:
             problems.append('encoder arm %s has %d result definitions' % (vname, len(rds)))
             continue
